@@ -3,7 +3,9 @@ package main
 // rules_observer.go — shared analysis of the stream-observer (couchbase/observer.go) for C03, C06, C07, C08.
 
 import (
+	"sort"
 	"fmt"
+	"go/token"
 	"go/types"
 	"strings"
 
@@ -18,6 +20,38 @@ type obsInfo struct {
 	gate     *ssa.Function // canForward
 	member   *ssa.Function // IsInSnapshotMarker
 	skipWin  *ssa.Function // isBeforeSkipWindow
+	need     *ssa.Function // needCatchup: the (uint64) bool helper the gate consults directly
+	persist  *ssa.Function // checkPersistSeqNo: the (uint64) bool helper polled in a loop by the gate or its wait helper
+}
+
+// methodsBySig: the observer's methods whose parameters (after the receiver) and results have the given kinds.
+func (w *World) methodsBySig(typ *types.Named, params []string, results []string) []*ssa.Function {
+	var out []*ssa.Function
+	for _, fn := range w.ModFuncs {
+		if fn.Signature.Recv() == nil || fn.Parent() != nil || recvTypeName(fn.Signature.Recv().Type()) != typ.Obj().Name() || fn.Pkg == nil || fn.Pkg.Pkg != typ.Obj().Pkg() {
+			continue
+		}
+		sig := fn.Signature
+		if sig.Params().Len() != len(params) || sig.Results().Len() != len(results) {
+			continue
+		}
+		ok := true
+		for i, k := range params {
+			if shortType(sig.Params().At(i).Type()) != k {
+				ok = false
+			}
+		}
+		for i, k := range results {
+			if shortType(sig.Results().At(i).Type()) != k {
+				ok = false
+			}
+		}
+		if ok {
+			out = append(out, fn)
+		}
+	}
+	sort.Slice(out, func(i, j int) bool { return fname(out[i]) < fname(out[j]) })
+	return out
 }
 
 func observerInfo(c *Ctx, id string) *obsInfo {
@@ -48,12 +82,41 @@ func observerInfo(c *Ctx, id string) *obsInfo {
 	}
 	c.need(oi.deliver != nil, id, "observer method calling the listener field")
 	pkg := strings.TrimPrefix(strings.TrimPrefix(oi.typ.Obj().Pkg().Path(), modPath), "/")
-	oi.gate = w.Method(pkg, oi.typ.Obj().Name(), "canForward")
+	// helpers are identified by role (signature and who calls them), not by name
+	if g := w.methodsBySig(oi.typ, []string{"uint64", "bool"}, []string{"bool"}); len(g) == 1 {
+		oi.gate = g[0]
+	}
 	oi.member = w.Method(pkg, oi.typ.Obj().Name(), "IsInSnapshotMarker")
-	oi.skipWin = w.Method(pkg, oi.typ.Obj().Name(), "isBeforeSkipWindow")
-	c.need(oi.gate != nil, id, "observer.canForward")
+	if g := w.methodsBySig(oi.typ, []string{"time.Time"}, []string{"bool"}); len(g) == 1 {
+		oi.skipWin = g[0]
+	}
+	c.need(oi.gate != nil, id, "the observer's gate: its one method of signature (uint64, bool) bool (canForward)")
 	c.need(oi.member != nil, id, "observer.IsInSnapshotMarker")
-	c.need(oi.skipWin != nil, id, "observer.isBeforeSkipWindow")
+	c.need(oi.skipWin != nil, id, "the observer's one method of signature (time.Time) bool (isBeforeSkipWindow)")
+	gateUnit := w.syncCallees(oi.gate, 1, false)
+	for _, m := range w.methodsBySig(oi.typ, []string{"uint64"}, []string{"bool"}) {
+		if m == oi.member {
+			continue
+		}
+		polled, direct := false, false
+		for f := range gateUnit {
+			cyc := cycleBlocks(f)
+			allInstrs(f, func(in ssa.Instruction) {
+				if cc := callOf(in); cc != nil && cc.StaticCallee() == m {
+					if cyc[in.Block()] {
+						polled = true
+					} else if f == oi.gate {
+						direct = true
+					}
+				}
+			})
+		}
+		if polled && oi.persist == nil {
+			oi.persist = m
+		} else if direct && oi.need == nil {
+			oi.need = m
+		}
+	}
 	return oi
 }
 
@@ -77,8 +140,12 @@ func (w *World) boundMethodOf(v ssa.Value) *ssa.Function {
 		return nil
 	}
 	bf, ok := mc.Fn.(*ssa.Function)
-	if !ok || !strings.HasSuffix(bf.Name(), "$bound") {
+	if !ok {
 		return nil
+	}
+	if !strings.HasSuffix(bf.Name(), "$bound") {
+		// func() { x.m() }: a closure that only forwards to one method of a captured receiver is the same binding
+		return forwardedMethod(bf)
 	}
 	if obj, ok := bf.Object().(*types.Func); ok {
 		return w.Prog.FuncValue(obj)
@@ -215,4 +282,54 @@ func c03DeliverOAE(c *Ctx, id string, oi *obsInfo) {
 		}
 		return ""
 	}, "listener called exactly once with the received Event ⇔ ¬closed")
+}
+
+// forwardedMethod: for an anonymous function whose whole body is one static method call on a captured value with
+// its own parameters passed through (and the results returned), the method; nil otherwise.
+func forwardedMethod(fn *ssa.Function) *ssa.Function {
+	if fn == nil || fn.Parent() == nil || len(fn.Blocks) != 1 {
+		return nil
+	}
+	var call *ssa.Call
+	for _, in := range fn.Blocks[0].Instrs {
+		switch x := in.(type) {
+		case *ssa.UnOp:
+			if x.Op != token.MUL {
+				return nil
+			}
+			if _, ok := x.X.(*ssa.FreeVar); !ok {
+				return nil
+			}
+		case *ssa.Call:
+			if call != nil {
+				return nil
+			}
+			call = x
+		case *ssa.Extract, *ssa.Return, *ssa.DebugRef:
+		default:
+			return nil
+		}
+	}
+	if call == nil {
+		return nil
+	}
+	callee := call.Common().StaticCallee()
+	if callee == nil || callee.Signature.Recv() == nil || len(call.Common().Args) != 1+len(fn.Params) {
+		return nil
+	}
+	switch r := call.Common().Args[0].(type) {
+	case *ssa.FreeVar:
+	case *ssa.UnOp:
+		if _, ok := r.X.(*ssa.FreeVar); !ok {
+			return nil
+		}
+	default:
+		return nil
+	}
+	for i, p := range fn.Params {
+		if call.Common().Args[1+i] != ssa.Value(p) {
+			return nil
+		}
+	}
+	return callee
 }
